@@ -35,7 +35,8 @@ type thread struct {
 	id      int
 	wake    chan struct{}
 	done    bool
-	blocked *Mutex // shim mutex this thread waits for
+	blocked *Mutex     // shim mutex this thread waits for
+	waitWG  *WaitGroup // shim wait group this thread waits for
 	clock   []int
 	started bool
 }
@@ -58,6 +59,27 @@ type Sched struct {
 	mainWake   chan struct{}
 	Accesses   int
 	mutexes    map[*Mutex]*mstate
+	wgs        map[*WaitGroup]*wgstate
+	spawned    sync.WaitGroup // goroutines started by the code under test through Go
+	Spawns     int
+}
+
+// wgstate is the per-execution state of a shim WaitGroup.
+type wgstate struct {
+	n     int
+	clock []int
+}
+
+func (s *Sched) wg(w *WaitGroup) *wgstate {
+	if s.wgs == nil {
+		s.wgs = map[*WaitGroup]*wgstate{}
+	}
+	st := s.wgs[w]
+	if st == nil {
+		st = &wgstate{}
+		s.wgs[w] = st
+	}
+	return st
 }
 
 // mstate is the per-execution state of a shim mutex (kept in the scheduler so
@@ -136,17 +158,18 @@ func (s *Sched) Run(bodies ...func()) {
 	s.current = 0
 	s.threads[0].wake <- struct{}{}
 	wg.Wait()
+	s.spawned.Wait()
 	Active = nil
 }
 
 func (s *Sched) enabled() []int {
 	var out []int
 	cur := s.threads[s.current]
-	if !cur.done && cur.blocked == nil {
+	if !cur.done && cur.blocked == nil && cur.waitWG == nil {
 		out = append(out, cur.id)
 	}
 	for _, t := range s.threads {
-		if t.id != s.current && !t.done && (t.blocked == nil || !s.ms(t.blocked).held) {
+		if t.id != s.current && !t.done && (t.blocked == nil || !s.ms(t.blocked).held) && (t.waitWG == nil || s.wg(t.waitWG).n <= 0) {
 			out = append(out, t.id)
 		}
 	}
@@ -187,6 +210,7 @@ func (s *Sched) threadDone(t *thread) {
 				s.Deadlock = true
 				// release blocked threads so the process can make progress and report
 				o.blocked = nil
+				o.waitWG = nil
 				s.current = o.id
 				s.mu.Unlock()
 				o.wake <- struct{}{}
@@ -207,21 +231,38 @@ func (s *Sched) threadDone(t *thread) {
 	next.wake <- struct{}{}
 }
 
-func join(a, b []int) {
-	for i := range a {
+// vector clocks grow when the code under test starts goroutines: a missing component is 0
+
+func join(a, b []int) []int {
+	for len(a) < len(b) {
+		a = append(a, 0)
+	}
+	for i := range b {
 		if b[i] > a[i] {
 			a[i] = b[i]
 		}
 	}
+	return a
 }
 
 func leq(a, b []int) bool { // a happens-before-or-equal b
 	for i := range a {
-		if a[i] > b[i] {
+		bi := 0
+		if i < len(b) {
+			bi = b[i]
+		}
+		if a[i] > bi {
 			return false
 		}
 	}
 	return true
+}
+
+func (t *thread) tick() {
+	for len(t.clock) <= t.id {
+		t.clock = append(t.clock, 0)
+	}
+	t.clock[t.id]++
 }
 
 // Access is called by instrumented code before a read or write of a
@@ -259,7 +300,7 @@ func Access(name, site string, write, mutable bool) {
 		vs.reads[t.id] = append([]int{}, t.clock...)
 		vs.readSite[t.id] = site
 	}
-	t.clock[t.id]++
+	t.tick()
 	s.mu.Unlock()
 	if mutable {
 		s.yield(name+" @"+site, write)
@@ -330,9 +371,9 @@ func (m *Mutex) Lock() {
 		if !st.held {
 			st.held, st.owner = true, t.id
 			if st.clock != nil {
-				join(t.clock, st.clock)
+				t.clock = join(t.clock, st.clock)
 			}
-			t.clock[t.id]++
+			t.tick()
 			s.mu.Unlock()
 			return
 		}
@@ -372,7 +413,7 @@ func (m *Mutex) Unlock() {
 	st := s.ms(m)
 	st.held = false
 	st.clock = append([]int{}, t.clock...)
-	t.clock[t.id]++
+	t.tick()
 	s.mu.Unlock()
 	s.yield("mutex.Unlock", true)
 }
@@ -410,4 +451,103 @@ func Now() time.Time {
 		return time.Now()
 	}
 	return time.Date(2031, 1, 1, 0, 0, 0, 0, time.UTC).Add(time.Duration(n) * 3661 * time.Second)
+}
+
+// ---- goroutines started by the code under test ----------------------------------
+
+// Go replaces a `go` statement of the repository in the instrumented build. Under a controlled execution the new
+// goroutine becomes one more scheduler thread (ordered after the spawn, runnable from the spawn on; the spawn is a
+// scheduling point, so the child may run before the parent continues); free running, it is a plain goroutine.
+func Go(f func()) {
+	s := Active
+	if s == nil {
+		go f()
+		return
+	}
+	s.mu.Lock()
+	parent := s.threads[s.current]
+	t := &thread{id: len(s.threads), wake: make(chan struct{}, 1)}
+	t.clock = append([]int{}, parent.clock...)
+	t.tick()
+	parent.tick()
+	s.threads = append(s.threads, t)
+	s.Spawns++
+	s.spawned.Add(1)
+	s.mu.Unlock()
+	go func() {
+		defer s.spawned.Done()
+		<-t.wake
+		f()
+		s.threadDone(t)
+	}()
+	s.yield("go", true)
+}
+
+// WaitGroup is sync.WaitGroup whose Wait blocks the scheduler thread (not the OS thread) and whose Done/Wait pairs
+// are happens-before edges.
+type WaitGroup struct {
+	real sync.WaitGroup
+}
+
+func (w *WaitGroup) Add(n int) {
+	s := Active
+	if s == nil {
+		w.real.Add(n)
+		return
+	}
+	s.mu.Lock()
+	t := s.threads[s.current]
+	st := s.wg(w)
+	st.n += n
+	if n < 0 {
+		st.clock = join(st.clock, t.clock)
+	}
+	t.tick()
+	s.mu.Unlock()
+	if n < 0 {
+		s.yield("WaitGroup.Done", true)
+	}
+}
+
+func (w *WaitGroup) Done() { w.Add(-1) }
+
+func (w *WaitGroup) Wait() {
+	s := Active
+	if s == nil {
+		w.real.Wait()
+		return
+	}
+	s.yield("WaitGroup.Wait", false)
+	for {
+		s.mu.Lock()
+		t := s.threads[s.current]
+		st := s.wg(w)
+		if st.n <= 0 {
+			t.clock = join(t.clock, st.clock)
+			t.tick()
+			s.mu.Unlock()
+			return
+		}
+		t.waitWG = w
+		en := s.enabled()
+		if len(en) == 0 {
+			s.Deadlock = true
+			t.waitWG = nil
+			s.mu.Unlock()
+			return
+		}
+		c := 0
+		if len(en) > 1 {
+			c = s.choose(len(en))
+			s.Points = append(s.Points, Point{Kind: "sched", Site: "waitgroup-blocked", Arity: len(en), Choice: c, Thread: t.id})
+		}
+		next := s.threads[en[c]]
+		s.current = next.id
+		s.mu.Unlock()
+		next.wake <- struct{}{}
+		<-t.wake
+		s.mu.Lock()
+		t.waitWG = nil
+		s.mu.Unlock()
+	}
 }
